@@ -26,9 +26,15 @@ def intruder(rng, ap):
 def run(ctx):
     nob, ndis, failing, files = common.obligations(ctx, PROPS)
     base = []
-    for fam, nq, nt in (("core", 80, 800), ("subslot", 60, 600), ("coredeps", 40, 400), ("limits", 30, 300), ("hours", 20, 200), ("alap", 120, 1200)):
+    for fam, nq, nt in (("core", 80, 800), ("subslot", 60, 600), ("coredeps", 40, 400), ("limits", 30, 300), ("hours", 20, 200), ("alap", 120, 1200), ("trees", 60, 500), ("priotrees", 60, 500)):
         base += gens.family(ctx, fam, ctx.n(nq, nt))
     base += gens.prio_family(ctx, ctx.n(150, 1500))
+    # allocations with alternatives (the choice looks at the bookings made so far) in projects with a second scenario:
+    # the intruder must be harmless in every scenario
+    for ap in gens.family(ctx, "alts", ctx.n(60, 500)) + gens.family(ctx, "subslot", ctx.n(20, 200)):
+        ap["scenario_lines"] = [ctx.rng.choice(['scenario plan "plan" { scenario s1 "s1" }', 'scenario plan "plan" { scenario s1 "s1" scenario s2 "s2" }'])]
+        ap["_family"] = "scen" + str(ap.get("_family"))
+        base.append(ap)
     withx = []
     for ap in base:
         ap2 = copy.deepcopy(ap)
@@ -36,6 +42,21 @@ def run(ctx):
             if n.get("prio") is not None and n["prio"] <= 1:
                 n["prio"] = 100
         x = intruder(ctx.rng, ap2)
+        # strictly lowest BY THE PROJECT TEXT: often just one below the lowest effective priority (own or inherited
+        # from the nearest enclosing container that declares one; default 500), not always far below everything
+        tidx = projects.task_index(ap2)
+        eff = []
+        for p, n in tidx.items():
+            if "kids" in n:
+                continue
+            pr = 500
+            for k in range(len(p), 0, -1):
+                if tidx[p[:k]].get("prio") is not None:
+                    pr = tidx[p[:k]]["prio"]
+                    break
+            eff.append(pr)
+        if eff and min(eff) > 2 and ctx.rng.random() < 0.7:
+            x["prio"] = min(eff) - 1
         pos = ctx.rng.randint(0, len(ap2["tasks"]))
         ap2["tasks"].insert(pos, x)
         withx.append(ap2)
@@ -52,8 +73,13 @@ def run(ctx):
         ta, tb = a["obs"]["scenarios"][0]["tasks"], b["obs"]["scenarios"][0]["tasks"]
         stats["compared"] += 1
         stats["intruder_scheduled"] += 1 if tb.get("zzx", {}).get("sched") else 0
-        diff = {t: (ta[t], tb.get(t)) for t in ta if (ta[t]["sched"], ta[t]["start"], ta[t]["end"]) !=
-                (tb.get(t, {}).get("sched"), tb.get(t, {}).get("start"), tb.get(t, {}).get("end"))}
+        diff = {}
+        for si, (sa, sb) in enumerate(zip(a["obs"]["scenarios"], b["obs"]["scenarios"])):
+            ta, tb = sa["tasks"], sb["tasks"]
+            stats["scenarios_compared"] += 1
+            for t in ta:
+                if (ta[t]["sched"], ta[t]["start"], ta[t]["end"]) != (tb.get(t, {}).get("sched"), tb.get(t, {}).get("start"), tb.get(t, {}).get("end")):
+                    diff[t if si == 0 else f"{t} (scenario {si})"] = (ta[t], tb.get(t))
         if diff:
             bad.append({"what": "adding a strictly lowest-priority task on which nothing depends changed the dates of other tasks",
                         "changed": {k: v for k, v in list(diff.items())[:4]}, "project_with_intruder": projects.render(ap2),
@@ -65,7 +91,7 @@ def run(ctx):
         violations.append({"no_input": True, "replay": common.write_replay(ctx, {"property": "C09", "kind": "proof obligation no longer checks; no failing input found", "failing_obligations": failing})})
     cov = {"obligations": nob, "discharged": ndis, "checker_cmd": "tools/coqbuild.sh (coqc 8.16.1 full .vo build)", "trusted_base": common.TRUSTED, "files": files,
            "traces_validated_against_impl": stats["compared"], "input_distribution": dict(stats),
-           "rule": "random core / sub-slot / dependency / limit / calendar projects, each scheduled with and without a random intruder (strictly lowest priority, any effort, resource or team, optional pinned start, optional dependency ON other tasks, inserted at a random declaration position); pairs whose horizon differs are skipped (property hypothesis)",
+           "rule": "random core / sub-slot / dependency / limit / calendar projects, each scheduled with and without a random intruder (strictly lowest priority - mostly one below the lowest priority that the text gives any other task, directly or by inheritance through up to four levels of containers -, any effort, resource or team, optional pinned start, optional dependency ON other tasks, inserted at a random declaration position); projects with alternatives and two or three scenarios are compared in every scenario; pairs whose horizon differs are skipped (property hypothesis)",
            "samples": [{"project_with_intruder": projects.render(withx[0])[:1200]}]}
     common.finish(ctx, "proof", cov, violations,
                   ["the theorem is stated for the whole-slot model with the intruder declared last; other declaration positions and sub-slot projects are covered by the two-run comparison on the implementation"])
